@@ -216,7 +216,13 @@ impl<F: FixedChannelRegion> RegionHandler for FixedChannelPlan<F> {
                     // from. If the datarate bandwidth is 500 kHz, we must use
                     // channels 64..=71. Else, we must use 0-63
                     let bandwidth = F::datarates()[datarate as usize].as_ref().unwrap().bandwidth;
+                    // Never spin on a mask without a channel of the bandwidth the data rate
+                    // needs (data rate changed by the application or by ADR back-off after the
+                    // mask was set): re-enable the channels of that bandwidth.
                     if bandwidth == Bandwidth::_500KHz {
+                        if !(64..72).any(|i| self.channel_mask.is_enabled(i).unwrap()) {
+                            self.channel_mask.set_bank(8, 0xFF);
+                        }
                         let mut channel = (rng.next_u32() & 0b111) as u8;
                         // keep selecting a random channel until we find one that is enabled
                         while !self.channel_mask.is_enabled((channel + 64).into()).unwrap() {
@@ -224,6 +230,11 @@ impl<F: FixedChannelRegion> RegionHandler for FixedChannelPlan<F> {
                         }
                         (datarate, 64 + channel)
                     } else {
+                        if !(0..64).any(|i| self.channel_mask.is_enabled(i).unwrap()) {
+                            for bank in 0..8 {
+                                self.channel_mask.set_bank(bank, 0xFF);
+                            }
+                        }
                         let mut channel = (rng.next_u32() & 0b111111) as u8;
                         // keep selecting a random channel until we find one that is enabled
                         while !self.channel_mask.is_enabled(channel.into()).unwrap() {
